@@ -11,6 +11,7 @@ import (
 	"sort"
 	"strings"
 	"sync"
+	"sync/atomic"
 	"testing"
 	"time"
 
@@ -281,6 +282,8 @@ func vfPeekName(b []byte) string {
 
 // ---- one history ----
 
+var vfDeadlockSeen atomic.Bool
+
 type vfCallback struct {
 	N     int
 	Token string
@@ -409,6 +412,9 @@ func vfRunMuxHistory(rep *verifkit.Report, h int, stall bool) {
 	sendersDone := make(chan struct{})
 	go func() { wg.Wait(); close(sendersDone) }()
 	bound := 90 * time.Second // 3 x (20 s read timeout + 3 s wait + 5 s abort grace)
+	if vfDeadlockSeen.Load() && !stall {
+		bound = 12 * time.Second // a deadlock was already witnessed with the full bound; do not spend it on every history
+	}
 	w := func() map[string]any {
 		mu.Lock()
 		defer mu.Unlock()
@@ -424,6 +430,7 @@ func vfRunMuxHistory(rep *verifkit.Report, h int, stall bool) {
 	select {
 	case <-sendersDone:
 	case <-time.After(bound):
+		vfDeadlockSeen.Store(true)
 		rep.Violation("mux/send-deadlock/"+plan.FailKind, "sendRequest/closeSend did not return within the progress bound", w())
 		return
 	}
@@ -434,6 +441,7 @@ func vfRunMuxHistory(rep *verifkit.Report, h int, stall bool) {
 	select {
 	case waitErr = <-waitErrC:
 	case <-time.After(bound):
+		vfDeadlockSeen.Store(true)
 		rep.Violation("mux/wait-deadlock/"+plan.FailKind, "waitForResponses did not return within the progress bound", w())
 		return
 	}
@@ -700,6 +708,67 @@ func TestVerifC10Cuts(t *testing.T) {
 				}
 			}
 			mu.Unlock()
+		}
+	}
+	// an answer of exactly the maximum size is a valid answer
+	for _, delta := range []int{0, -1} {
+		name := "limit/exact"
+		base := proto.Size(&conformancev1.ClientCompatResponse{TestName: name, Result: &conformancev1.ClientCompatResponse_Error{Error: &conformancev1.ClientErrorResult{Message: "x"}}})
+		target := maxClientResponseSize + delta
+		pad := target - base - 6 // room for the growth of the two length varints
+		var resp *conformancev1.ClientCompatResponse
+		for ; pad < target; pad++ {
+			resp = &conformancev1.ClientCompatResponse{TestName: name, Result: &conformancev1.ClientCompatResponse_Error{Error: &conformancev1.ClientErrorResult{Message: strings.Repeat("p", pad)}}}
+			if proto.Size(resp) >= target {
+				break
+			}
+		}
+		if proto.Size(resp) != target {
+			rep.Note("could not build an answer of exactly %d bytes (got %d)", target, proto.Size(resp))
+			continue
+		}
+		body, _ := proto.Marshal(resp)
+		frame := make([]byte, 4+len(body))
+		binary.BigEndian.PutUint32(frame, uint32(len(body)))
+		copy(frame[4:], body)
+		impl := func(_ context.Context, _ []string, in io.ReadCloser, out, _ io.WriteCloser) error {
+			var pre [4]byte
+			if _, err := io.ReadFull(in, pre[:]); err != nil {
+				return nil
+			}
+			_, _ = io.CopyN(io.Discard, in, int64(binary.BigEndian.Uint32(pre[:])))
+			_, _ = out.Write(frame)
+			return nil
+		}
+		ctx, cancel := context.WithCancel(context.Background())
+		runner, err := runClient(ctx, runInProcess([]string{"big-client"}, impl))
+		if err != nil {
+			cancel()
+			continue
+		}
+		got := make(chan vfCallback, 2)
+		_ = runner.sendRequest(&conformancev1.ClientCompatRequest{TestName: name}, func(_ string, r *conformancev1.ClientCompatResponse, err error) {
+			c := vfCallback{}
+			if err != nil {
+				c.Err = err.Error()
+			} else {
+				c.N = len(r.GetError().GetMessage())
+			}
+			got <- c
+		})
+		runner.closeSend()
+		_ = runner.waitForResponses()
+		runner.stop()
+		cancel()
+		rep.Eval(1)
+		select {
+		case c := <-got:
+			rep.Count("exact_limit_answers", 1)
+			if c.Err != "" {
+				rep.Violation("mux/answer-of-maximum-size-rejected", fmt.Sprintf("an answer of %d bytes (limit %d) was not delivered: %s", target, maxClientResponseSize, c.Err), map[string]any{"size": target})
+			}
+		default:
+			rep.Violation("mux/cuts/callback-count/0", "no callback for the maximum-size answer", nil)
 		}
 	}
 	sort.Strings(nil)
